@@ -31,14 +31,15 @@ DECIDING = ["output_comparisons", "child_processes"]
 def cases(ctx):
     rng = ctx.rng
     subs = [s for s in M.subsets() if s]
-    for i in range(ctx.per_shard(ctx.pick(120, 12000))):
-        yield {"kind": "inproc", "seed": rng.getrandbits(32), "feats": rng.choice(subs), "nhist": rng.randint(1, 6)}
+    for i in range(ctx.per_shard(ctx.pick(300, 16000))):
+        yield {"kind": "inproc", "seed": rng.getrandbits(32), "feats": rng.choice(subs), "nhist": rng.randint(1, 6),
+               "pristine_check": i % 12 == 5}
     for i in range(ctx.per_shard(ctx.pick(24, 1600))):
         yield {"kind": "child", "seed": rng.getrandbits(32), "feats": rng.choice(subs), "nhist": rng.randint(1, 4),
                "hashseeds": [rng.randint(0, 2 ** 31) for _ in range(ctx.pick(4, 8))]}
     for i in range(ctx.per_shard(ctx.pick(4, 200))):
         yield {"kind": "cli", "seed": rng.getrandbits(32), "hashseeds": [rng.randint(0, 2 ** 31) for _ in range(ctx.pick(3, 6))]}
-    for i in range(ctx.per_shard(ctx.pick(20, 2000))):
+    for i in range(ctx.per_shard(ctx.pick(60, 3000))):
         yield {"kind": "nosalt", "seed": rng.getrandbits(32), "feats": rng.choice(subs)}
 
 
@@ -49,6 +50,8 @@ def make_target(seed, feats):
         opts["words"] = sorted(set(opts["words"]) | {"sea", "seattle", "north", "northwest"})
     if opts["salt"] == "":
         opts["salt"] = "s0"
+    if rng.random() < 0.6:
+        opts["pp"] = None
     text = M.gen_text(rng, opts, rng.randint(3, 25))
     # make sure sha512 secrets and word-bearing tokens are present
     st = {}
@@ -62,8 +65,15 @@ def make_target(seed, feats):
 
 
 def make_history(rng, opts, text, n):
-    """Unrelated anonymizers whose reserved words are tokens / secret values of the target text."""
+    """Unrelated anonymizers, adversarial on purpose: every constructor option of the earlier
+    anonymizers is chosen so that it WOULD matter to the target if it leaked - reserved words that are
+    tokens / secret values of the target text, preserved networks and prefixes built around the
+    target's own addresses (with the default prefix list in use), other host-bit counts, word and AS
+    lists that overlap the target's."""
+    import ipaddress
+
     toks = [t for ln in text if ln["kind"] == "plain" for t, lab in ln["toks"] if lab in ("word", "benign")]
+    v4s = [t.split("/")[0].rstrip(",") for ln in text if ln["kind"] == "plain" for t, lab in ln["toks"] if lab == "v4"]
     secrets = [p[3] for ln in text if ln["kind"] == "secret" for p in ln.get("parts", []) if p[0] == "slot"]
     hist = []
     for _ in range(n):
@@ -76,8 +86,24 @@ def make_history(rng, opts, text, n):
             res.append(rng.choice(secrets))
         res += ["zurich", "rtr-zurich-gw", "SEA"][: rng.randint(0, 3)]
         h["reserved"] = [r for r in res if r and not re.search(r"\s", r)]
-        feats = rng.choice([["pwd", "words"], ["words"], ["pwd"], ["pwd", "ip", "words", "asn"]])
-        hist.append({"opts": h, "feats": feats, "text": "password foo\nhostname rtr-zurich-gw\n"})
+        nets = []
+        for a in rng.sample(v4s, min(len(v4s), 2)):
+            try:
+                nets.append(str(ipaddress.ip_network("%s/%d" % (a, rng.choice([9, 12, 16, 20, 24])), strict=False)))
+            except ValueError:
+                pass
+        nets = nets or ["11.22.0.0/16"]
+        if rng.random() < 0.7:
+            h["pa"] = nets
+        h["pp"] = None if rng.random() < 0.7 else nets
+        h["B4"] = rng.choice([None, 0, 4, 16, 24])
+        h["B6"] = rng.choice([None, 0, 16, 96])
+        if rng.random() < 0.5:
+            h["words"] = sorted(set(h["words"]) | set(opts["words"][:1]) | {"gigabitethernet", "vlan"})
+        if rng.random() < 0.5:
+            h["asns"] = sorted(set(h["asns"]) | {"10", "24", "255"})
+        feats = rng.choice([["pwd", "ip", "words", "asn"], ["pwd", "ip", "words", "asn"], ["ip"], ["pwd", "words"], ["words", "asn"], ["pwd"]])
+        hist.append({"opts": h, "feats": feats, "text": "password foo\nhostname rtr-zurich-gw\n ip address 10.1.2.3 255.255.255.0\nrouter bgp 65000\n"})
     return hist
 
 
@@ -142,6 +168,18 @@ def _inproc(ctx, case, nc, pristine):
         return
     if a != src:
         ctx.distinct((case["seed"], "repeat"))
+    if case.get("pristine_check"):
+        res, err = run_driver({"target": {"opts": opts, "feats": feats, "text": src, "repeat": 1}, "history": []}, 0)
+        ctx.count("child_processes")
+        if res is None:
+            raise HarnessError("driver failed: %s" % err)
+        ctx.count("output_comparisons")
+        ctx.count("pristine_child_comparisons")
+        if res["outs"][0] != a:
+            ctx.violation(case, "depends-on-earlier-anonymizers:persisting:" + mechanism(text, res["outs"][0], a),
+                          "output in this long-running process differs from a pristine interpreter (state left behind by anonymizers "
+                          "of earlier cases): %s" % first_diff(res["outs"][0], a))
+            return
     hist = make_history(rng, opts, text, case["nhist"])
     for h in hist:
         before = set(nc.rw.default_reserved_words)
